@@ -30,14 +30,15 @@ func init() {
 		Rule: "each case: 3 reading sessions (publisher/caller, subscriber/callee, callee serving the stalled callers, all transports) and 1-3 sessions that stop reading after setting up " +
 			"subscriptions (hot topic, wamp. meta topics), registrations and pending calls, with router->client queue sizes 1,2,16,64 and tiny socket buffers; 6-14 rounds of traffic: acknowledged " +
 			"publications to the hot topic, calls between readers, calls to stalled callees, YIELDs (progressive and final) to stalled callers, requests sent by the stalled sessions themselves " +
-			"(repeated SUBSCRIBE, PUBLISH, CALL), meta calls, kills and departures of stalled sessions, AddRealm/RemoveRealm; oracles: every reply/delivery to a reader carries the virtual timestamp of " +
+			"(repeated SUBSCRIBE, PUBLISH, CALL, orphan progressive and final YIELDs, invocation ERRORs, refused UNSUBSCRIBE/UNREGISTER/CANCEL/invalid requests), meta calls, kills and departures of stalled sessions, AddRealm/RemoveRealm; oracles: every reply/delivery to a reader carries the virtual timestamp of " +
 			"its request (zero delay; retry-period bound for the yielding callee), backlog drained after resume <= queue bound, no bubble deadlock, every request answered after a +3 min drain; " +
+			"every 2nd case ends with RemoveRealm of the realm while one of its rawsocket sessions does not drain (closing it takes seconds) and a client joins another realm 1 ms later: WELCOME at that very instant (ST6); " +
 			"non-trivial = >=1 message was dropped for a stalled session while a reader had a request in flight in the same round; every 4th case instead: nobody stalled, 6-8 closed-loop sessions " +
 			"(register/unregister churn, subscribe/unsubscribe churn, 1-3 meta API callers, meta event observer, acknowledged publisher, caller of the churned procedure; 30-120 rounds each, GOMAXPROCS 1/2/4/8) " +
 			"released together: every loop must have completed all rounds when the bubble is quiescent (ST5), non-trivial = >=100 rounds completed; every 16th case (engine live): the router behind its real " +
 			"RawSocketServer/WebsocketServer (unix and loopback TCP sockets, OutQueueSize 1/4/16/default) with the project's client transports: a subscriber stops reading, a publisher sends queue+120 acknowledged " +
 			"32 KiB publications in closed loop, the subscriber resumes: events kept for it <= configured queue + 4 + socket buffers (LV1), publisher never disconnected (LV2), order kept (LV3)",
-		Required: []string{"ST1", "ST2", "ST3", "ST4", "ST5", "LV1"},
+		Required: []string{"ST1", "ST2", "ST3", "ST4", "ST5", "ST6", "LV1"},
 		Level:    "exploration",
 	})
 }
@@ -406,7 +407,20 @@ func runC07(c *Case) {
 			if st.killed {
 				return
 			}
-			switch r.IntN(4) {
+			switch r.IntN(8) {
+			case 4: // progressive YIELD for an invocation that does not exist (any more): the dealer answers with an INTERRUPT that cannot be queued
+				st.p.Send(&wamp.Yield{Request: wamp.ID(1 + r.IntN(40)), Options: wamp.Dict{"progress": true}, Arguments: wamp.List{"orphan"}})
+			case 5: // other answers nobody waits for
+				st.p.Send(&wamp.Yield{Request: wamp.ID(1 + r.IntN(40)), Options: wamp.Dict{}, Arguments: wamp.List{"orphan"}})
+				st.p.Send(&wamp.Error{Type: wamp.INVOCATION, Request: wamp.ID(1 + r.IntN(40)), Details: wamp.Dict{}, Error: "com.x"})
+			case 6: // requests that are refused (every refusal is a reply that cannot be queued)
+				st.p.Send(&wamp.Unsubscribe{Request: 94, Subscription: wamp.ID(1 + r.IntN(9))})
+				st.p.Send(&wamp.Unregister{Request: 95, Registration: wamp.ID(1 + r.IntN(9))})
+				st.p.Send(&wamp.Cancel{Request: wamp.ID(200 + r.IntN(50)), Options: wamp.Dict{"mode": "kill"}})
+			case 7:
+				st.p.Send(&wamp.Subscribe{Request: 96, Options: wamp.Dict{"match": "bogus"}, Topic: "a..b"})
+				st.p.Send(&wamp.Register{Request: 97, Options: wamp.Dict{}, Procedure: "wamp.x"})
+				st.p.Send(&wamp.Publish{Request: 98, Options: wamp.Dict{"acknowledge": true}, Topic: "a..b"})
 			case 0: // repeated SUBSCRIBE of a topic it already holds
 				st.p.Send(&wamp.Subscribe{Request: 91, Options: wamp.Dict{}, Topic: "hot2"})
 			case 1:
@@ -584,6 +598,46 @@ func runC07(c *Case) {
 		publish(pub)
 		call()
 		metaCall()
+		// ---- ST6: removing a realm whose sessions do not drain must not hold up the other realms
+		if c.Index%2 == 0 {
+			_ = w.Router.AddRealm(&router.RealmConfig{URI: "other.realm", AnonymousAuth: true})
+			slow := join(sim.PuppetSpec{Kind: pick(r, []sim.Kind{sim.RawJSON, sim.RawMsgpack, sim.RawCBOR}), QSize: 2, PipeBuf: 256})
+			slow.Send(&wamp.Subscribe{Request: 1, Options: wamp.Dict{}, Topic: "slow.topic"})
+			w.Wait()
+			slow.Take()
+			slow.Stall()
+			for i := 0; i < 12; i++ { // its pipe (256 bytes) and queue (2) fill up: the router-side writer is blocked in a write
+				pub.Send(&wamp.Publish{Request: wamp.ID(9000 + i), Options: wamp.Dict{}, Topic: "slow.topic", Arguments: wamp.List{strings.Repeat("s", 300)}})
+			}
+			w.Wait()
+			joiner := w.AddPuppet(sim.PuppetSpec{Kind: randomKind(r, 50)})
+			removed := false
+			go func() {
+				w.Router.RemoveRealm("realm1")
+				removed = true
+			}()
+			go func() {
+				time.Sleep(time.Millisecond) // the removal has begun (closing the slow session's transport takes seconds)
+				joiner.Send(&wamp.Hello{Realm: "other.realm", Details: wamp.Dict{"roles": sim.AllFeatures()}})
+			}()
+			joinAt := w.Now() + time.Millisecond
+			w.Advance(2 * time.Millisecond)
+			c.Hit("ST6")
+			var at time.Duration = -1
+			for _, o := range joiner.Log() {
+				if _, ok := o.Msg.(*wamp.Welcome); ok {
+					at = o.At
+				}
+			}
+			if at != joinAt {
+				c.Fail("ST6", "join of another realm held up by the removal of a realm with a slow session", "a client sent HELLO for realm other.realm at virtual %v while realm1 (with a session whose transport does not drain) was being removed; WELCOME at %v (-1: none yet); RemoveRealm returned by then: %v", joinAt, at, removed)
+			}
+			w.Advance(30 * time.Second)
+			if !removed {
+				c.Fail("SD1", "RemoveRealm did not return", "RemoveRealm(realm1) with a session whose transport does not drain did not return within 30 virtual seconds")
+			}
+			note("RemoveRealm(realm1) with a slow session while a client joins other.realm")
+		}
 		rep := w.Teardown()
 		c.Hit("ST3")
 		if !rep.CloseReturned {
